@@ -1,7 +1,7 @@
 """C27  Resource values are formatted with Android's meaning (DESIGN §7 C27)."""
 from pyvc.core import And, Eq, Implies, Ite, Not, Or
 from pyvc.text import text_eq, fmt
-from pyvc.unit import unit
+from pyvc.unit import bare, unit
 from specs import resvalue as S
 
 AXML = "androguard/core/axml/__init__.py"
@@ -85,7 +85,7 @@ class _Ate:
 def arsc_accessors(U):
     m = U.mod(AXML)
     d = U.int("d", 0, 0xFFFFFFFF)
-    p = object.__new__(m.ARSCParser)
+    p = bare(m.ARSCParser)
     u = d & 0xF
     ui = u if isinstance(u, int) else u.concretize()
     o = U.call(p.get_resource_dimen, _Ate(d))
